@@ -663,9 +663,11 @@ func (f *frame) loopHeader(b *ssa.BasicBlock, li *loopInfo, reach Term, preds []
 		if inv.auto {
 			continue // auto candidates were validated by the Houdini pass
 		}
+		vc.skipAssume = inv.cand != nil
 		if o := vc.oblige("inv-entry", f.label, inv.name, f.pos(b.Instrs[0].Pos()), g, inv.name, f.inlined); o != nil {
 			o.cand = inv.cand
 		}
+		vc.skipAssume = false
 	}
 	allocBefore := entrySt.get("$alloc", SBV64)
 	// havoc
@@ -728,9 +730,11 @@ func (f *frame) backEdge(b, h *ssa.BasicBlock, cond Term) {
 			continue
 		}
 		g := f.evalInv(inv, h)
+		vc.skipAssume = inv.cand != nil
 		if o := vc.oblige("inv-keep", f.label, inv.name, f.pos(h.Instrs[0].Pos()), g, inv.name, f.inlined); o != nil {
 			o.cand = inv.cand
 		}
+		vc.skipAssume = false
 	}
 	vc.reach = savedReach
 	for _, phi := range phis {
@@ -779,6 +783,8 @@ func (f *frame) block(b *ssa.BasicBlock) {
 			f.rets = append(f.rets, retRec{reach: vc.reach, results: rs, st: f.st, instr: x})
 			if f.top {
 				vc.exitReach = append(vc.exitReach, vc.reach)
+				vc.exitIdx = append(vc.exitIdx, len(vc.items))
+				vc.exitPos = append(vc.exitPos, fmt.Sprint(f.pos(x.Pos()).Line))
 				f.checkPost(x, rs)
 			}
 		case *ssa.Panic:
